@@ -145,7 +145,7 @@ static int count_fds(void)
     return n;
 }
 
-static unsigned long long n_eval, n_success, n_permanent, n_os_calls, n_prng, n_long, n_fd_census;
+static unsigned long long n_prim_used, n_eval, n_success, n_permanent, n_os_calls, n_prng, n_long, n_fd_census;
 static int want_prim = 0;
 
 static void run_script(const args_t *a, long idx, const unsigned char *pre, long npre, int all_eintr, int end, int via_prng)
@@ -208,7 +208,7 @@ static void run_script(const args_t *a, long idx, const unsigned char *pre, long
     ++n_fd_census;
     if (fds0 >= 0 && fds1 != fds0) emit_viol("fd-leak", "open descriptors before %d, after %d", fds0, fds1);
     if (S.opens != S.closes + (end == E_OPENFAIL ? S.opens : 0)) emit_viol("fd-leak", "open() %ld times, close() %ld times", S.opens, S.closes);
-    if (!S.used[want_prim] && end != E_OPENFAIL) { emit_viol("harness-variant-not-reached", "build variant %s did not use its primitive", a->mode); }
+    if (S.used[want_prim]) ++n_prim_used;
 }
 
 int main(int argc, char **argv)
@@ -238,6 +238,11 @@ int main(int argc, char **argv)
     emit_stat("evaluations", n_eval); emit_stat("scripts_ending_in_success", n_success); emit_stat("scripts_ending_in_permanent_error", n_permanent);
     emit_stat("os_entropy_calls_observed", n_os_calls); emit_stat("scripts_through_prng_init", n_prng); emit_stat("long_prefix_scripts", n_long);
     emit_stat("fd_census_comparisons", n_fd_census);
+    emit_stat("scripts_that_reached_the_variants_primitive", n_prim_used);
+    if (n_eval > 10 && n_prim_used == 0 && !g_nviol) {      /* the instrument never saw the call it is supposed to script */
+        fprintf(stderr, "build variant %s never called its OS primitive: harness does not reach the code\n", a.mode);
+        return 2;
+    }
     finish();
     return 0;
 }
